@@ -37,10 +37,21 @@ PRINT_NO_TIME = ' '.join('print ' + r for r in REGS if r != 'time')
 
 class SCase:
     """start mode, register contents, chain of `units` switches"""
-    __slots__ = ('mode', 'regs', 'chain', 'pattern')
+    __slots__ = ('mode', 'regs', 'chain', 'pattern', 'kind')
+    _rotation = [0]
+    # the command that transmits: every kind of operand in turn (light twice as often)
+    KIND_CYCLE = ('light', 'zone', 'group', 'light', 'all', 'matrix', 'location', 'light', 'power_light',
+                  'power_all', 'power_group')
 
-    def __init__(self, mode, regs, chain, pattern=None):
+    def __init__(self, mode, regs, chain, pattern=None, kind=None):
         self.mode, self.regs, self.chain, self.pattern = mode, regs, tuple(chain), pattern
+        if kind is None:
+            SCase._rotation[0] += 1
+            kind = SCase.KIND_CYCLE[SCase._rotation[0] % len(SCase.KIND_CYCLE)]
+        self.kind = kind
+
+    def command(self):
+        return uc.KINDS[self.kind][0] + ' wait'
 
     def setup(self):
         parts = []
@@ -53,7 +64,7 @@ class SCase:
         return 'time 0 units {} {}'.format(self.mode, ' '.join(parts))
 
     def script_without(self):
-        return '{}\nset "A" wait\n'.format(self.setup())
+        return '{}\n{}\n'.format(self.setup(), self.command())
 
     def script_with(self, printing=False):
         pr = (PRINT_NO_TIME if self.pattern else PRINT_ALL)
@@ -64,11 +75,11 @@ class SCase:
             body.append('units ' + m)
             if printing:
                 body.append(pr)
-        body.append('set "A" wait')
+        body.append(self.command())
         return '\n'.join(body) + '\n'
 
     def describe(self):
-        return {'start_mode': self.mode, 'chain': list(self.chain),
+        return {'start_mode': self.mode, 'chain': list(self.chain), 'command': self.command(),
                 'regs': {k: repr(v) for k, v in self.regs.items()},
                 'time_pattern': self.pattern,
                 'script_with_switch': self.script_with(),
@@ -109,10 +120,11 @@ class C14:
     def bump(self, k, n=1):
         self.stats[k] = self.stats.get(k, 0) + n
 
-    def execute(self, scripts):
+    def execute(self, scripts, kinds=None):
         """run the given per-case scripts batched; each is wrapped in `println "@"` … `print "$"`.
         -> list of dict(outs, pause, wait_until, event) or 'aborted'"""
         results = [None] * len(scripts)
+        kinds = kinds or ['light'] * len(scripts)
         start = 0
         while start < len(scripts):
             text = ''.join('print "@"\n{}print "$"\n'.format(s) for s in scripts[start:])
@@ -120,14 +132,24 @@ class C14:
             if events is None:
                 raise RuntimeError('generated script rejected: ' + job.compile_errors[:300] + text[:300])
             runs = split_runs(trace, events)
-            ev = [e for e in events if e[1] == 'set_color']
+            pos = 0
             i = start
             for k, run in enumerate(runs):
                 if not run['done']:
                     results[i] = 'aborted'
                     i += 1
                     break
-                run['event'] = ev[k] if k < len(ev) else None
+                want = uc.KINDS[kinds[i]][1]
+                mine = events[pos:pos + len(want)]
+                pos += len(want)
+                if [(e[0], e[1]) for e in mine] == [tuple(w) for w in want]:
+                    fields = uc.event_fields(kinds[i], mine)
+                    colour, _power, dur = fields[0]
+                    # every device addressed gets the same colour and duration
+                    run['event'] = (mine[0][0], mine[0][1], (colour, dur)) \
+                        if all(f == fields[0] for f in fields) else None
+                else:
+                    run['event'] = None
                 results[i] = run
                 i += 1
             if i == start:
@@ -196,11 +218,15 @@ class C14:
             return states
         (c0, d0), (c1, d1) = e0[2], e1[2]
         rgb_involved = 'rgb' in modes
-        if c0[3] != c1[3]:
+        if c0 is None or c1 is None:
+            pass        # a power command carries no colour: duration and delay only
+        elif c0[3] != c1[3]:
             chk.violation('wire-kelvin-differs:' + sig_chain,
                           'kelvin transmitted as {} with the switch, {} without'.format(c1[3], c0[3]),
                           case.describe())
-        if not rgb_involved:
+        if c0 is None or c1 is None:
+            pass
+        elif not rgb_involved:
             for i, n in enumerate(('hue', 'saturation', 'brightness')):
                 d = uc.distance(c1[i], c0[i], i == 0)
                 if d > 1:
@@ -288,8 +314,8 @@ class C14:
     def run_cases(self, cases):
         for i in range(0, len(cases), 1500):
             chunk = cases[i:i + 1500]
-            base = self.execute([c.script_without() for c in chunk])
-            sw = self.execute([c.script_with(printing=True) for c in chunk])
+            base = self.execute([c.script_without() for c in chunk], [c.kind for c in chunk])
+            sw = self.execute([c.script_with(printing=True) for c in chunk], [c.kind for c in chunk])
             for c, b, s in zip(chunk, base, sw):
                 states = self.judge(c, b, s)
                 if states:
